@@ -13,7 +13,7 @@ import (
 func VerifH_C10_status() {
 	maxRefs := 2
 	if vz.Thorough() {
-		maxRefs = 4
+		maxRefs = 3
 	}
 	j := verifDrawJobState(verifJobOpts{maxRefs: maxRefs, parallel: 1, allowKill: true, allowAdmErr: true, allowDeletion: true, maxAttemptsHi: 3, concreteTimes: true})
 	in := jobutil.UpdateJobTaskRefs(j.rj, nil) // recompute counters only (no task objects: refs keep their recorded state)
